@@ -15,72 +15,115 @@ def _adv_pre(var='s'):
     return f'all(c in ADVSET for c in {var})'
 
 
+FIRST4 = [('lt48', 'ord(s[0]) < 48'), ('48to64', '48 <= ord(s[0]) < 65'), ('65to96', '65 <= ord(s[0]) < 97'),
+          ('ge97', 'ord(s[0]) >= 97')]
+UNI_FIRST = [('ascii', 'ord(s[0]) < 128'), ('latin', '128 <= ord(s[0]) < 0x300'), ('bmp1', '0x300 <= ord(s[0]) < 0x2000'),
+             ('bmp2', '0x2000 <= ord(s[0]) < 0x3000'), ('bmp3', '0x3000 <= ord(s[0]) < 0x10000'), ('astral', 'ord(s[0]) >= 0x10000')]
+
+
 def obligations(tier):
     quick = tier == 'quick'
     obs = []
-
-    def add(fn, params, pres, *, group, bound, timeout, lens=None, var='s', extra=None, **kw):
-        """One obligation per string length (the partition of the bound)."""
-        if lens is None:
-            obs.append(Ob(id=f'{group}', module=M, func=fn, params=params, pre=list(pres),
-                          group=group, bound=bound, timeout=timeout, **kw))
-            return
-        for n in lens:
-            obs.append(Ob(id=f'{group}.len{n}', module=M, func=fn, params=params,
-                          pre=[f'len({var}) == {n}'] + list(pres), group=group,
-                          bound=f'{bound}, |{var}| = {n}', timeout=timeout, **kw))
-
-    T = 150 if quick else 900
+    T = 300 if quick else 1800
     T = float(os.environ.get('VERIF_XH_TIMEOUT') or T)
-    U = 2 if quick else 3          # full-Unicode length bound
-    A = 3 if quick else 4          # adversarial-alphabet length bound
-    uni = range(0, U + 1)
-    advl = range(U + 1, A + 1)
 
-    # 18.1 escaped string literal
-    add('eql_quote_literal', 's: str', [NOSUR], group='18.1.quote_literal.unicode', lens=uni,
-        bound='all Unicode scalar values', timeout=T)
-    add('eql_quote_literal', 's: str', [_adv_pre()], group='18.1.quote_literal.adv', lens=advl,
-        bound='adversarial alphabet', timeout=T)
-    # 18.2 dollar-quoted literal
-    add('eql_dollar_quote', 's: str', [NOSUR], group='18.2.dollar_quote.unicode', lens=uni,
-        bound='all Unicode scalar values', timeout=T)
-    add('eql_dollar_quote', 's: str', [_adv_pre()], group='18.2.dollar_quote.adv', lens=advl,
-        bound='adversarial alphabet', timeout=T)
-    # 18.3 identifiers
-    add('eql_quote_ident', 's: str, allow_reserved: bool, force: bool', [NOSUR],
-        group='18.3.quote_ident.unicode', lens=uni, bound='all Unicode scalar values x allow_reserved x force', timeout=T)
-    add('eql_quote_ident', 's: str, allow_reserved: bool, force: bool', [_adv_pre()],
-        group='18.3.quote_ident.adv', lens=advl, bound='adversarial alphabet x allow_reserved x force', timeout=T)
-    # 18.4 parameters, qualified names
-    add('eql_param', 's: str', [NOSUR], group='18.4.param.unicode', lens=uni,
-        bound='all Unicode scalar values', timeout=T)
-    add('eql_param', 's: str', [_adv_pre()], group='18.4.param.adv', lens=advl,
-        bound='adversarial alphabet', timeout=T)
-    add('eql_ident_to_str', 'a: str, b: str', ['no_surrogates(a) and no_surrogates(b)', 'len(a) <= 2 and len(b) <= 2'],
-        group='18.4.ident_to_str', bound='two names, each |.| <= 2, all Unicode', timeout=T)
-    # 18.5 string constants through the code generator
-    add('eql_codegen_str', 's: str, pretty: bool', [NOSUR], group='18.5.codegen_str.unicode', lens=uni,
-        bound='all Unicode scalar values x pretty', timeout=T)
-    add('eql_codegen_str', 's: str, pretty: bool', [_adv_pre()], group='18.5.codegen_str.adv', lens=advl,
-        bound='adversarial alphabet x pretty', timeout=T)
-    # 18.6 bytes constants
-    add('eql_codegen_bytes', 'b: bytes', [], group='18.6.codegen_bytes', lens=range(0, (3 if quick else 4) + 1), var='b',
-        bound='all byte values', timeout=T)
-    # 18.7 PostgreSQL string constants
-    add('pg_quote_literal', 's: str', [NOSUR], group='18.7.pg_quote_literal.unicode', lens=range(0, U + 2),
-        bound='all Unicode scalar values', timeout=T)
-    add('pg_string_constant_node', 's: str', [NOSUR], group='18.7.pg_string_constant', lens=uni,
-        bound='all Unicode scalar values', timeout=T)
-    # 18.8 PostgreSQL identifiers
-    add('pg_quote_ident', 's: str, force: bool, column: bool', [NOSUR], group='18.8.pg_quote_ident.unicode', lens=uni,
-        bound='all Unicode scalar values x force x column', timeout=T)
-    add('pg_quote_ident', 's: str, force: bool, column: bool', [_adv_pre()], group='18.8.pg_quote_ident.adv', lens=advl,
-        bound='adversarial alphabet x force x column', timeout=T)
-    add('pg_qname', 'a: str, b: str', ['no_surrogates(a) and no_surrogates(b)', 'len(a) <= 2 and len(b) <= 2'],
-        group='18.8.pg_qname', bound='two names, each |.| <= 2, all Unicode', timeout=T)
-    add('pg_quote_type', 'a: str, b: str, arr: bool', ['no_surrogates(a) and no_surrogates(b)', 'len(a) <= 1 and len(b) <= 2'],
-        group='18.8.pg_quote_type', bound='schema |.| <= 1, name |.| <= 2, all Unicode, optional []', timeout=T)
+    def add(fn, params, pres, *, group, bound, lens=None, var='s', parts=None, timeout=None, **kw):
+        """One obligation per string length and per partition (the partition
+        predicates are exhaustive, so their union is the stated bound)."""
+        for n in (lens if lens is not None else [None]):
+            for pname, ppre in (parts or [('', None)]):
+                oid = group + ('.len%d' % n if n is not None else '') + ('.' + pname if pname else '')
+                pre = ([f'len({var}) == {n}'] if n is not None else []) + list(pres) + ([ppre] if ppre else [])
+                b = bound + (f', |{var}| = {n}' if n is not None else '') + (f', partition {pname}: {ppre}' if ppre else '')
+                obs.append(Ob(id=oid, module=M, func=fn, params=params, pre=pre or ['True'], group=group, bound=b,
+                              timeout=timeout or T, **kw))
+
+    ASCII = 'is_ascii(s)'
+    ADV = _adv_pre()
+    uni = 'all Unicode scalar values'
+    # ---- 18.1 escaped string literal ------------------------------------------
+    add('eql_quote_literal', 's: str', [NOSUR], group='18.1.quote_literal.unicode', lens=range(0, 3), bound=uni)
+    add('eql_quote_literal', 's: str', [ADV], group='18.1.quote_literal.adv', lens=[3], bound='adversarial alphabet')
+    if not quick:
+        add('eql_quote_literal', 's: str', [NOSUR], group='18.1.quote_literal.unicode', lens=[3], bound=uni, parts=UNI_FIRST)
+        add('eql_quote_literal', 's: str', [ADV], group='18.1.quote_literal.adv', lens=[4], bound='adversarial alphabet',
+            parts=[('q', "s[0] in '\'\"`$'"), ('nq', "s[0] not in '\'\"`$'")])
+    # ---- 18.2 dollar-quoted literal ---------------------------------------------
+    add('eql_dollar_quote', 's: str', [NOSUR], group='18.2.dollar_quote.unicode', lens=range(0, 4), bound=uni)
+    add('eql_dollar_quote', 's: str', [ADV], group='18.2.dollar_quote.adv', lens=[4], bound='adversarial alphabet')
+    if not quick:
+        add('eql_dollar_quote', 's: str', [NOSUR], group='18.2.dollar_quote.unicode', lens=[4], bound=uni)
+        add('eql_dollar_quote', 's: str', [ADV], group='18.2.dollar_quote.adv', lens=[5, 6], bound='adversarial alphabet')
+    # ---- 18.3 identifiers ----------------------------------------------------------
+    ip = 's: str, allow_reserved: bool, force: bool'
+    add('eql_quote_ident', ip, [NOSUR], group='18.3.quote_ident.unicode', lens=[0, 1], bound=uni + ' x allow_reserved x force')
+    add('eql_quote_ident', ip, [ASCII, 'not force'], group='18.3.quote_ident.ascii', lens=[2], parts=FIRST4[:2],
+        bound='ASCII x allow_reserved, force=False')
+    add('eql_quote_ident', ip, [ASCII, 'not force'], group='18.3.quote_ident.ascii', lens=[2],
+        parts=[(n + ('.res' if r else '.nores'), p + (' and allow_reserved' if r else ' and not allow_reserved'))
+               for n, p in FIRST4[2:] for r in (False, True)],
+        bound='ASCII, force=False')
+    add('eql_quote_ident', ip, [ASCII, 'force'], group='18.3.quote_ident.ascii.forced', lens=[2], bound='ASCII x allow_reserved, force=True')
+    if not quick:
+        add('eql_quote_ident', ip, [NOSUR, 'not force'], group='18.3.quote_ident.unicode', lens=[2], parts=UNI_FIRST,
+            bound=uni + ' x allow_reserved, force=False')
+        add('eql_quote_ident', ip, [ASCII, 'not force'], group='18.3.quote_ident.ascii', lens=[3], parts=FIRST4,
+            bound='ASCII x allow_reserved, force=False')
+    # ---- 18.4 parameters, qualified names ------------------------------------------
+    add('eql_param', 's: str', [NOSUR], group='18.4.param.unicode', lens=[0, 1], bound=uni)
+    add('eql_param', 's: str', [ASCII], group='18.4.param.ascii', lens=[2], parts=FIRST4, bound='ASCII')
+    add('eql_ident_to_str', 'a: str, b: str', ['is_ascii(a) and is_ascii(b)', 'len(a) <= 1 and len(b) <= 1'],
+        group='18.4.ident_to_str', bound='two names, each |.| <= 1, ASCII')
+    if not quick:
+        add('eql_ident_to_str', 'a: str, b: str', ['no_surrogates(a) and no_surrogates(b)', 'len(a) == 1 and len(b) == 1'],
+            group='18.4.ident_to_str.unicode', bound='two names, each |.| = 1, all Unicode')
+        add('eql_param', 's: str', [NOSUR], group='18.4.param.unicode', lens=[2], parts=UNI_FIRST, bound=uni)
+        add('eql_param', 's: str', [ASCII], group='18.4.param.ascii', lens=[3], parts=FIRST4, bound='ASCII')
+        add('eql_ident_to_str', 'a: str, b: str', ['is_ascii(a) and is_ascii(b)', 'len(a) == 2 and len(b) <= 2'],
+            group='18.4.ident_to_str.ascii2', bound='two ASCII names, |a| = 2, |b| <= 2')
+    # ---- 18.5 string constants through the code generator ----------------------------
+    cp = 's: str, pretty: bool'
+    add('eql_codegen_str', cp, [NOSUR], group='18.5.codegen_str.unicode', lens=[0, 1], bound=uni + ' x pretty')
+    add('eql_codegen_str', cp, [ASCII], group='18.5.codegen_str.ascii', lens=[2], bound='ASCII x pretty', parts=FIRST4)
+    if not quick:
+        add('eql_codegen_str', cp, [NOSUR, 'not pretty'], group='18.5.codegen_str.unicode', lens=[2], parts=UNI_FIRST, bound=uni)
+        add('eql_codegen_str', cp, [ADV, 'not pretty'], group='18.5.codegen_str.adv', lens=[3], bound='adversarial alphabet',
+            parts=[('q', "s[0] in '\'\"`$'"), ('nq', "s[0] not in '\'\"`$'")])
+    # ---- 18.6 bytes constants -----------------------------------------------------------
+    add('eql_codegen_bytes', 'b: bytes', [], group='18.6.codegen_bytes', lens=[0, 1], var='b', bound='all byte values')
+    firsts = [32, 80] if quick else list(range(0, 128, 16))
+    add('eql_codegen_bytes', 'b: bytes', [], group='18.6.codegen_bytes', lens=[2], var='b', bound='all byte values',
+        parts=[('first%d' % lo, f'{lo} <= b[0] < {lo + 16}') for lo in firsts])
+    firsts = [248] if quick else list(range(128, 256, 8))
+    add('eql_codegen_bytes', 'b: bytes', [], group='18.6.codegen_bytes', lens=[2], var='b', bound='all byte values',
+        parts=[('first%d' % lo, f'{lo} <= b[0] < {lo + 8}') for lo in firsts])
+    if not quick:
+        add('eql_codegen_bytes', 'b: bytes', ['b[0] == 92'], group='18.6.codegen_bytes.bs', lens=[3], var='b',
+            bound='first byte a backslash, others any',
+            parts=[('second%d' % lo, f'{lo} <= b[1] < {lo + 32}') for lo in range(0, 256, 32)])
+    # ---- 18.7 PostgreSQL string constants ----------------------------------------------
+    add('pg_quote_literal', 's: str', [NOSUR], group='18.7.pg_quote_literal.unicode', lens=range(0, 6 if quick else 7), bound=uni)
+    add('pg_string_constant_node', 's: str', [NOSUR], group='18.7.pg_string_constant', lens=range(0, 3 if quick else 5), bound=uni)
+    # ---- 18.8 PostgreSQL identifiers -----------------------------------------------------
+    pp = 's: str, force: bool, column: bool'
+    add('pg_quote_ident', pp, [NOSUR], group='18.8.pg_quote_ident.unicode', lens=[0, 1], bound=uni + ' x force x column')
+    add('pg_quote_ident', pp, [ASCII, 'not force'], group='18.8.pg_quote_ident.ascii', lens=[2], parts=FIRST4,
+        bound='ASCII x column, force=False')
+    add('pg_qname', 'a: str, b: str', ['is_ascii(a) and is_ascii(b)', 'len(a) == 1 and len(b) == 1'],
+        group='18.8.pg_qname', bound='two names, each |.| = 1, ASCII',
+        parts=[('lt65', 'ord(a[0]) < 65'), ('ge65', 'ord(a[0]) >= 65')])
+    add('pg_quote_type', 'a: str, b: str, arr: bool', ['is_ascii(a) and is_ascii(b)', 'len(a) == 1 and len(b) == 1'],
+        group='18.8.pg_quote_type', bound='schema and name |.| = 1, ASCII, optional []',
+        parts=[('lt65', 'ord(a[0]) < 65'), ('ge65', 'ord(a[0]) >= 65')])
+    if not quick:
+        add('pg_qname', 'a: str, b: str', ['no_surrogates(a) and no_surrogates(b)', 'len(a) == 1 and len(b) == 1'],
+            group='18.8.pg_qname.unicode', bound='two names, each |.| = 1, all Unicode', parts=[(n, p.replace('s[0]', 'a[0]')) for n, p in UNI_FIRST])
+        add('pg_quote_ident', pp, [NOSUR, 'not force'], group='18.8.pg_quote_ident.unicode', lens=[2], parts=UNI_FIRST,
+            bound=uni + ' x column, force=False')
+        add('pg_quote_ident', pp, [ASCII, 'not force'], group='18.8.pg_quote_ident.ascii', lens=[3], parts=FIRST4,
+            bound='ASCII x column, force=False')
+        add('pg_qname', 'a: str, b: str', ['is_ascii(a) and is_ascii(b)', 'len(a) == 2 and len(b) <= 2'],
+            group='18.8.pg_qname.ascii2', bound='two ASCII names, |a| = 2, |b| <= 2')
 
     # reachability twins (post negated: some in-domain input must reach the comparison and pass it)
     for fn, params, pre in (
@@ -98,6 +141,79 @@ def obligations(tier):
     return obs
 
 
+COVERED = ('Str', 'BinStr', 'Ident', 'KeywordR', 'KeywordU', 'Parameter')
+
+
+def validate_model(V, tier):
+    """The reference lexer model is not trusted: compare it with the real
+    lexer (compiled from /repo's .rs files in this run) on a corpus, and run
+    every harness natively on the small adversarial corpus (each native run
+    cross-checks model and real lexer on the text the real quoting function
+    produced).  Returns (texts compared, disagreements)."""
+    import itertools
+    from vlib.oracle import lexer, eql_model
+    from vlib.harness import C18_quote as H
+    L = lexer.shared()
+    rnd = random.Random(driver.seed())
+    alpha = [c for c in H.ADV]
+    words = ['']
+    for k in (1, 2):
+        words += [''.join(t) for t in itertools.product(alpha, repeat=k)]
+    if tier != 'quick':
+        words += [''.join(rnd.choice(alpha) for _ in range(3)) for _ in range(20000)]
+    pool = [chr(c) for c in list(range(1, 0x250)) + [0x2028, 0x202a, 0x2066, 0xfeff, 0x10348, 0x1f600, 0x3000, 0x0345, 0x2161, 0xb2]]
+    words += [''.join(rnd.choice(pool) for _ in range(rnd.randint(1, 4))) for _ in range(3000)]
+    n = bad = 0
+    samples = []
+    wraps = [lambda t: t, lambda t: "'" + t + "'", lambda t: '"' + t + '"', lambda t: "b'" + t + "'",
+             lambda t: '$$' + t + '$$', lambda t: '`' + t + '`', lambda t: '$' + t, lambda t: "r'" + t + "'",
+             lambda t: '$a$' + t + '$a$', lambda t: '$`' + t + '`']
+    for w in words:
+        # comments are outside the model
+        bare_ok = '#' not in w
+        for k, wrap in enumerate(wraps):
+            if k in (0, 6) and not bare_ok:
+                continue
+            t = wrap(w)
+            m = eql_model.lex_one(t)
+            r = L.single(t)
+            if r is not None and r[0] not in COVERED:
+                r = None
+            n += 1
+            if m != r:
+                bad += 1
+                if len(samples) < 5:
+                    samples.append({'text': t, 'model': repr(m), 'real_lexer': repr(L.lex(t))})
+    # native harness runs on the small corpus
+    native = viol = 0
+    fns = [(H.eql_quote_literal, lambda w: (w,)), (H.eql_dollar_quote, lambda w: (w,)),
+           (H.eql_quote_ident, lambda w: (w, False, False)), (H.eql_quote_ident, lambda w: (w, True, False)),
+           (H.eql_quote_ident, lambda w: (w, False, True)), (H.eql_param, lambda w: (w,)),
+           (H.eql_codegen_str, lambda w: (w, True)), (H.eql_codegen_str, lambda w: (w, False)),
+           (H.pg_quote_literal, lambda w: (w,)), (H.pg_quote_ident, lambda w: (w, False, False)),
+           (H.pg_quote_ident, lambda w: (w, False, True))]
+    for w in words[:1 + len(alpha) + len(alpha) ** 2]:
+        for fn, mk in fns:
+            native += 1
+            try:
+                ok = fn(*mk(w))
+            except H.OracleDisagreement as e:
+                bad += 1
+                if len(samples) < 8:
+                    samples.append({'harness': fn.__name__, 'input': w, 'disagreement': str(e)[:300]})
+                continue
+            if not ok:
+                viol += 1
+                V.add_generic('validation-corpus.%s' % fn.__name__, False, group='validation corpus', func=fn.__name__,
+                              detail={'input': w, 'info': dict(H.LAST_INFO)},
+                              violation={'harness': fn.__name__, 'args': repr(mk(w)), 'info': dict(H.LAST_INFO),
+                                         'found_by': 'native run of the harness on the validation corpus (not by the solver)',
+                                         'replay_cmd': None})
+                if viol > 5:
+                    break
+    return n, bad, native, samples
+
+
 def run(tier, only=''):
     V = driver.Verdicts('C18', tier)
     from vlib.oracle import lexer, tables
@@ -113,6 +229,13 @@ def run(tier, only=''):
                             assumptions=[], subjects=[])
         tables.dump(os.path.join(scratch, 'tables.json'))
         driver.log('C18: real lexer built from /repo in %.1fs' % (time.time() - t0))
+        t1 = time.time()
+        n_texts, n_bad, n_native, vsamples = validate_model(V, tier)
+        driver.log('C18: reference lexer model vs real lexer: %d texts, %d disagreements; %d native harness runs (%.1fs)'
+                   % (n_texts, n_bad, n_native, time.time() - t1))
+        if n_bad:
+            V.inconclusive.append('reference lexer model disagrees with the real lexer compiled from /repo on %d texts, '
+                                  'e.g. %r' % (n_bad, vsamples[:2]))
         obs = [o for o in obligations(tier) if only in o.id]
         driver.log(f'C18 {tier}: {len(obs)} CrossHair obligations')
         for ob, r in zip(obs, xhair.run_all(obs, log=driver.log)):
@@ -122,6 +245,34 @@ def run(tier, only=''):
         shutil.rmtree(scratch, ignore_errors=True)
     return V.finish(
         level='other',
-        explanation='bounded symbolic verification of quoting functions',
-        bounds={}, stubs=[], trusted_base=[], assumptions=[],
+        explanation=('Bounded symbolic verification (CrossHair/z3 string theory) of every quoting function: the string or '
+                     'bytes value to be quoted is symbolic, the real quoting function from /repo produces the text, and a '
+                     'reference lexer (EdgeQL rules transcribed from tokenizer.rs/validation.rs/helpers, PostgreSQL rules from '
+                     'the documentation) reads it back; the obligation is "exactly one token of the expected kind with the '
+                     'original value" for every value the form can express. The EdgeQL reference lexer is validated in the '
+                     'same run against the real lexer compiled from /repo; every solver counterexample is replayed natively '
+                     'against the real function and the real lexer before it is reported.'),
+        bounds={'tier': tier,
+                'lengths': 'per obligation (see samples[].pre): full Unicode |s| <= 1..3 (<= 5..6 for the PostgreSQL literal), '
+                           'ASCII |s| = 2 (3 in thorough), adversarial alphabet of 39 code points |s| = 3..4 (..6), '
+                           'bytes |b| <= 1 plus |b| = 2 for %s first-byte ranges' % ('3' if tier == 'quick' else 'all 16'),
+                'adversarial alphabet': "' \" \\ $ ` ( ) : @ _ a b x u 0 9 LF CR TAB BS FF U+1F U+7F U+85 U+AD U+B2 U+2161 U+202A "
+                                        "U+2066 U+C9 U+E9 SPACE n i f I K U+345 U+3000"},
+        stubs=['none in the subject; CrossHair extension: `x in frozenset` with symbolic x is a linear scan of equality tests '
+               '(as CrossHair already does for set/dict) instead of hashing x'],
+        trusted_base=['PostgreSQL lexical model vlib/oracle/pg_model.py (scan.l rules, PG 17 reserved / type-func-name key words) - '
+                      'PostgreSQL itself is not in the sandbox',
+                      'CrossHair str/bytes/re models and Unicode tables (can hide a path, cannot cause an alarm: every '
+                      'counterexample is replayed on CPython and the real Rust lexer)',
+                      'Rust char::is_alphabetic / is_alphanumeric / is_whitespace tables are dumped from the compiled lexer '
+                      'binary on every run and injected as SMT predicates'],
+        assumptions=['EdgeQL domain of each form is decided by the lexer rules themselves (NUL and lone surrogates are not '
+                     'expressible; bidi controls only in escaped strings; names cannot be empty, start with @ or $, contain '
+                     '"::", or be surrounded by double underscores)',
+                     'PostgreSQL: standard_conforming_strings=on, multibyte server encoding, identifiers <= 63 bytes'],
+        outside=['longer strings', 'quote_bytea_literal / quote_e_literal (binascii / re.split: realised at the C boundary)',
+                 'dbops.encode_value dispatch (typeutils.is_container loops on a symbolic str under CrossHair)',
+                 'grammar-level acceptability of partial-reserved key words'],
+        extra={'model_validation': {'texts_compared_with_real_lexer': n_texts, 'disagreements': n_bad,
+                                    'native_harness_runs': n_native, 'samples': vsamples}},
     )
